@@ -309,3 +309,46 @@ func vAgentIdle(st interface{}, rendezvous func(), max time.Duration) bool {
 	}
 	return false
 }
+
+// vFieldCap: capacity of the channel found by following the named fields from obj (-1 when a field of
+// that name does not exist or is not a channel) - read by reflection so that the drivers keep compiling
+// when an internal field is renamed or replaced.
+func vFieldCap(obj interface{}, path ...string) int {
+	v := reflect.ValueOf(obj)
+	for _, p := range path {
+		for v.Kind() == reflect.Ptr || v.Kind() == reflect.Interface {
+			if v.IsNil() {
+				return -1
+			}
+			v = v.Elem()
+		}
+		if v.Kind() != reflect.Struct {
+			return -1
+		}
+		v = v.FieldByName(p)
+		if !v.IsValid() {
+			return -1
+		}
+	}
+	if v.Kind() != reflect.Chan {
+		return -1
+	}
+	return v.Cap()
+}
+
+// vAnnounceStore tells a hooks caller about a new store directory the way the agent's reload does:
+// through its NewStore channel if it has one, through a SetStore-like method otherwise.
+func vAnnounceStore(h interface{}, dir string) bool {
+	v := reflect.ValueOf(h)
+	if f := v.Elem().FieldByName("NewStore"); f.IsValid() && f.Kind() == reflect.Chan && f.CanInterface() {
+		f.Send(reflect.ValueOf(dir))
+		return true
+	}
+	for _, m := range []string{"SetStore", "NewStoreDir", "SetStoreDir"} {
+		if mv := v.MethodByName(m); mv.IsValid() && mv.Type().NumIn() == 1 && mv.Type().In(0).Kind() == reflect.String {
+			mv.Call([]reflect.Value{reflect.ValueOf(dir)})
+			return true
+		}
+	}
+	return false
+}
